@@ -40,7 +40,7 @@ func genC03(t *rapid.T) C03Case {
 	cfg.ExtraCorruptions = []string{"timestamp-future"}
 	cfg.BadIntentPct = 2
 	cfg.ForkPct = 28
-	cfg.Kinds = []string{"pay", "sf", "form", "formprove", "fcop", "fcop", "attest", "arb"}
+	cfg.Kinds = []string{"pay", "sf", "sfchain", "form", "formprove", "fcop", "fcop", "attest", "arb"}
 	if !kit.Thorough() {
 		cfg.MaxBlocks = 18
 	}
